@@ -766,6 +766,43 @@ func genC16(c *Ctx) {
 	tags := []string{"", "A", "BLS_POP_", "BLS_POP_BLS12381G1_XOF:KMAC128_SSWU_RO_POP_", "BLS_SIG_", "BLS_POP_BLS12381G1_XOF:KMAC128_SSWU_RO_POP_BLS_SIG_BLS12381G1_XOF:KMAC128_SSWU_RO_POP_", string(c.bytes(1024)),
 		"BLS_P", "_", "BLS12381G1_XOF:KMAC128_SSWU_RO_POP_", "BLS_SIG_BLS12381G1_XOF:KMAC128_SSWU_RO_POP_", "POP_", "RO_POP_", "BLS_POP_BLS12381G1_XOF:KMAC128_SSWU_RO_",
 		"xBLS_POP_BLS12381G1_XOF:KMAC128_SSWU_RO_POP_", "BLS_POP_BLS12381G1_XOF:KMAC128_SSWU_RO_POP_x"}
+	// a fresh private key whose first uses overlap: one goroutine generates the proof, others ask for the public key;
+	// the proof is the one of the key (the model's) and verifies under every public key object handed out
+	for trial := 0; trial < 10; trial++ {
+		k := c.randScalar()
+		sk := skFromInt(k)
+		const G = 5
+		pks := make([]crypto.PublicKey, G)
+		var pop crypto.Signature
+		var perr error
+		start := make(chan struct{})
+		var wg sync.WaitGroup
+		for g := 0; g < G; g++ {
+			wg.Add(1)
+			go func(g int) {
+				defer wg.Done()
+				<-start
+				if g == 0 {
+					pop, perr = crypto.BLSGeneratePOP(sk)
+				} else {
+					pks[g] = sk.PublicKey()
+				}
+			}(g)
+		}
+		close(start)
+		wg.Wait()
+		ans := "err"
+		if perr == nil {
+			ans = "ok " + hx(pop)
+			for g := 1; g < G; g++ {
+				if ok, err := crypto.BLSVerifyPOP(pks[g], pop); err != nil || !ok {
+					ans += " proof-rejected-under-a-public-key-handed-out-concurrently"
+					break
+				}
+			}
+		}
+		c.Case("pop-concurrent-first-use", "pop.gen 0x"+k.Text(16), ans)
+	}
 	for ki, key := range keys {
 		pkb := key.pk.Encode()
 		hpop := hashPoint(pkb, ph)
